@@ -70,6 +70,9 @@ func expandToken(tx plugintypes.TransactionState, token macroToken) string {
 		return token.text
 	}
 	switch col := tx.Collection(token.variable).(type) {
+	case nil:
+		// The transaction exposes no collection for this variable (e.g. JSON):
+		// treat it like a key that is not found.
 	case collection.Keyed:
 		if c := col.Get(token.key); len(c) > 0 {
 			return c[0]
